@@ -41,6 +41,9 @@ structure Cfg where
   /-- `ParseBlock` requires the counted entries to consume the whole decoded payload (so the
       16-bit `EntryCount`, which no checksum covers, cannot be changed unnoticed) -/
   parseConsumesAll : Bool
+  /-- `openExistingFile` walks the block headers and truncates the file behind the last block that
+      is entirely there (a torn tail would hide every block appended after it) -/
+  openCutsTornTail : Bool
   /-- `chroniclerV2.Write` tells its caller when `WriteEntry` refused an entry (it has a result that
       carries the refusal); `false`: the refusal is only logged and the entry silently dropped -/
   chronSurfacesError : Bool
@@ -54,7 +57,7 @@ structure Cfg where
 def goodCfg : Cfg :=
   { rejectsEmptyKey := true, rejectsLongKey := true, flushGe := true, flushAtCount := true,
     deleteRemoves := true, validatesCrc := true, validatesULen := true, boundsCompressedSize := true,
-    boundsDecodedLen := true, parseConsumesAll := true, shortPayloadIsEOF := true, chronSurfacesError := true, v2Fallback := true, rejectsLongName := true }
+    boundsDecodedLen := true, parseConsumesAll := true, shortPayloadIsEOF := true, chronSurfacesError := true, openCutsTornTail := true, v2Fallback := true, rejectsLongName := true }
 
 /-- canonical error classes of the reader -/
 inductive Err where
